@@ -233,6 +233,27 @@ def random_pda(rng, nstates=3, sigma='ab', gamma='xy', eps='_', ntrans=6, pfinal
     return {'Q': Q, 'Sigma': list(sigma), 'Gamma': gm, 'delta': delta, 'q0': 'q0', 'F': F, 'eps': eps}
 
 
+def fan_pda(rng):
+    """letter-nondeterministic PDA: every letter leads from q0 to 1-3 states, sparse continuations (mostly without stack use), no epsilon-input moves"""
+    sigma = rng.choice(['ab', 'ab', 'abc'])
+    eps = rng.choice(['_', ''])
+    k = rng.randint(3, 5)
+    Q = ['q%d' % i for i in range(k + 1)]
+    delta = []
+    for a in sigma:
+        for q in rng.sample(Q[1:], rng.randint(1, min(3, k))):
+            delta.append([Q[0], a, eps, q, eps])
+    for q in Q[1:]:
+        for a in sigma:
+            if rng.random() < 0.35:
+                u, v = rng.choice([(eps, eps), (eps, eps), (eps, 'x'), ('x', eps)])
+                t = [q, a, u, rng.choice(Q), v]
+                if t not in delta:
+                    delta.append(t)
+    F = [q for q in Q[1:] if rng.random() < 0.3] or [Q[-1]]
+    return {'Q': Q, 'Sigma': list(sigma), 'Gamma': ['x'], 'delta': delta, 'q0': 'q0', 'F': F, 'eps': eps}
+
+
 def relabel_re(t, codes):
     """rename the symbols 0..k-1 of a regexp tree to the given codes"""
     if t[0] == 's':
